@@ -1,0 +1,38 @@
+//go:build verif
+
+// Contracts for /verif/govc (contract-based deductive verification). Comment-only file:
+// with the build tag off nothing here is compiled; with it on, the file adds no code.
+// Syntax: see /verif/DESIGN.md section 3.2.
+package mysql
+
+//@ define reqWait(n int, w int) = min(n / 2, w)
+//@ define quorum(n int, w int) = max(n - reqWait(n, w), 1)
+//@ define replicasIn(n int) = max(n - 1, 0)
+
+//@ func (*mysql.SwitchHelper).GetRequiredWaitSlaveCount
+//@   flags overflow
+//@   requires w_nonneg [config]: sh.rplSemiSyncMasterWaitForSlaveCount >= 0
+//@   ensures def [C12,C04]: result == reqWait(len(activeNodes), sh.rplSemiSyncMasterWaitForSlaveCount)
+//@   ensures C12.r_le_replicas [C12]: 0 <= result && result <= replicasIn(len(activeNodes))
+//@   ensures C12.r_zero_iff [C12]: (result == 0) <==> (len(activeNodes) <= 1 || sh.rplSemiSyncMasterWaitForSlaveCount == 0)
+
+//@ func (*mysql.SwitchHelper).GetFailoverQuorum
+//@   flags overflow
+//@   requires w_nonneg [config]: sh.rplSemiSyncMasterWaitForSlaveCount >= 0
+//@   ensures def [C12,C01,C05]: result == quorum(len(activeNodes), sh.rplSemiSyncMasterWaitForSlaveCount)
+//@   ensures C12.q_ge_1 [C12]: result >= 1
+//@   ensures C12.q_plus_r [C12]: result + reqWait(len(activeNodes), sh.rplSemiSyncMasterWaitForSlaveCount) > replicasIn(len(activeNodes))
+
+//@ func (*mysql.SwitchHelper).CheckFailoverQuorum
+//@   flags overflow
+//@   requires w_nonneg [config]: sh.rplSemiSyncMasterWaitForSlaveCount >= 0
+//@   requires p_nonneg: permissibleSlaves >= 0
+//@   ensures C12.semisync [C12,C01,C05,C06]: sh.SemiSync ==> ((result == nil) <==> permissibleSlaves >= quorum(len(activeNodes), sh.rplSemiSyncMasterWaitForSlaveCount))
+//@   ensures C12.async [C12,C01,C05,C06]: !sh.SemiSync ==> ((result == nil) <==> permissibleSlaves >= 1)
+
+// Closed-form facts of the property statement over the spec functions (pure linear integer arithmetic).
+//@ lemma C12.lem_r_range [C12]: forall n int, w int :: n >= 0 && w >= 0 ==> 0 <= reqWait(n, w) && reqWait(n, w) <= replicasIn(n)
+//@ lemma C12.lem_r_zero [C12]: forall n int, w int :: n >= 0 && w >= 0 ==> ((reqWait(n, w) == 0) <==> (n <= 1 || w == 0))
+//@ lemma C12.lem_q_ge_1 [C12]: forall n int, w int :: n >= 0 && w >= 0 ==> quorum(n, w) >= 1
+//@ lemma C12.lem_q_plus_r [C12]: forall n int, w int :: n >= 0 && w >= 0 ==> quorum(n, w) + reqWait(n, w) > replicasIn(n)
+//@ lemma C12.lem_intersect [C12]: forall n int, w int, f int, a int :: n >= 0 && w >= 0 && f >= quorum(n, w) && a >= reqWait(n, w) && reqWait(n, w) >= 1 && f <= replicasIn(n) && a <= replicasIn(n) ==> f + a > replicasIn(n)
